@@ -830,3 +830,75 @@ def _single_pass_rule(kind):
 
 for _k in ("list", "dict", "set"):
     _single_pass_rule(_k)
+
+
+# ---------------------------------------------------------------------------
+# C05.index-protocol
+
+@rule("C05.index-protocol", ["C05"],
+      "list positions follow the __index__ protocol like the built-in: an "
+      "index/key argument is ordered against or added to integers only after "
+      "operator.index() (an object that only implements __index__ has no "
+      "`<` or `+`), and the conversion is not dropped")
+def index_protocol(ctx, res):
+    from .containers import FactFlow
+    repo = get_pyrepo(ctx)
+    rel = FILES["list"][0]
+    mod = repo.module(rel)
+    funcs = []
+    for qual, fn in mod.functions.items():
+        ps = [a.arg for a in fn.args.args]
+        for p in ps:
+            if p in ("index", "key"):
+                funcs.append((qual, fn, p))
+    n = 0
+    for qual, fn, p in funcs:
+        uses = []
+
+        class F(FactFlow):
+            def classify(s, e, node):
+                if isinstance(e, ast.Assign) and any(
+                        isinstance(t, ast.Name) and t.id == p
+                        for t in e.targets):
+                    return [("BIND", False)]
+                if isinstance(e, ast.Compare) and len(e.ops) == 1 \
+                        and isinstance(e.ops[0], (ast.Lt, ast.LtE, ast.Gt,
+                                                  ast.GtE)) \
+                        and any(isinstance(x, ast.Name) and x.id == p
+                                for x in (e.left, e.comparators[0])):
+                    return [("ORD", False)]
+                if isinstance(e, ast.BinOp) and isinstance(
+                        e.op, (ast.Add, ast.Sub)) and any(
+                        isinstance(x, ast.Name) and x.id == p
+                        for x in (e.left, e.right)):
+                    return [("ARITH", False)]
+                return []
+
+            def step(s, st, ev, e, node):
+                if ev == "BIND":
+                    v = norm(e.value)
+                    conv = v in (f"operator.index({p})", f"int({p})") or \
+                        v.startswith(f"operator.index({p})")
+                    st = frozenset(f for f in st if f != ("CONV", p))
+                    return st | {("CONV", p)} if conv else st
+                uses.append((e, st, node.id))
+                return st
+        fl = F(mod, fn, qual)
+        fl.run(frozenset())
+        if not uses:
+            continue
+        n += 1
+        res.instance(qual, mod.loc(fn), parameter=p, numeric_uses=len(uses))
+        bad = [(e, st, nid) for e, st, nid in uses
+               if ("CONV", p) not in st]
+        res.oblige(not bad, f"{qual}:raw-{p}",
+                   mod.loc(bad[0][0]) if bad else mod.loc(fn),
+                   f"{qual} evaluates `{norm(bad[0][0])[:50] if bad else ''}` "
+                   f"on the raw `{p}` argument (no operator.index on this "
+                   f"path): list accepts any object with __index__, this "
+                   f"raises TypeError for it"
+                   + (" - after the underlying list was already changed, so "
+                      "no event is sent for the change" if "_normalize" in qual
+                      else ""),
+                   fl.witness_lines(bad[0][2], bad[0][1]) if bad else None)
+    res.floor(3)
